@@ -391,4 +391,57 @@ MUTANTS = [
         auth_ok(&mut write).await?;
         write_all(&mut write, (&server_parameters).into()).await?;
         server_parameters.set_from_hashmap(&parameters, false);'''),
+    # ------------------------------------------------------------------ C01
+    dict(id="c01-release-in-transaction", prop="C01", file="src/client.rs", expect="C01-R1",
+         what="Q arm releases without looking at in_transaction()",
+         old='''                        .await?;
+
+                        if !server.in_transaction() {
+                            // Report transaction executed statistics.
+                            self.stats.transaction();
+                            server
+                                .stats()
+                                .transaction(self.server_parameters.get_application_name());
+
+                            // Release server back to the pool if we are in transaction mode.
+                            // If we are in session mode, we keep the server until the client disconnects.
+                            if self.transaction_mode && !server.in_copy_mode() {
+                                self.stats.idle();''',
+         new='''                        .await?;
+
+                        if !server.in_copy_mode() {
+                            // Report transaction executed statistics.
+                            self.stats.transaction();
+                            server
+                                .stats()
+                                .transaction(self.server_parameters.get_application_name());
+
+                            // Release server back to the pool if we are in transaction mode.
+                            // If we are in session mode, we keep the server until the client disconnects.
+                            if self.transaction_mode && !server.in_copy_mode() {
+                                self.stats.idle();'''),
+    dict(id="c01-release-in-copy", prop="C01", file="src/client.rs", expect="C01-R2",
+         what="Q arm releases although a COPY may have started",
+         old='''                            if self.transaction_mode && !server.in_copy_mode() {
+                                self.stats.idle();''',
+         new='''                            if self.transaction_mode {
+                                self.stats.idle();'''),
+    dict(id="c01-session-mode-releases", prop="C01", file="src/client.rs", expect="C01-R3",
+         what="Sync arm releases in session mode too",
+         old='''                            if self.transaction_mode && !server.in_copy_mode() {
+                                break;
+                            }''',
+         new='''                            if !server.in_copy_mode() {
+                                break;
+                            }'''),
+    dict(id="c01-shared-server-field", prop="C01", file="src/pool.rs", expect="C01-R5",
+         what="a struct that can park a shared server connection",
+         old='''/// Wrapper for the bb8 connection pool.
+pub struct ServerPool {''',
+         new='''pub struct Parked {
+    pub conn: Option<std::sync::Arc<parking_lot::Mutex<crate::server::Server>>>,
+}
+
+/// Wrapper for the bb8 connection pool.
+pub struct ServerPool {'''),
 ]
